@@ -1779,6 +1779,10 @@ def corr_drun(ctx, res, oracle_only=False, scale=1.0):
 KINDS = ['slow-heat', 'slow-cool', 'fast-heat', 'fast-cool', 'hold-ramp-hold', 'jump', 'zigzag', 'wiggle', 'iso']
 
 
+def _composed_plan(ctx):
+    return [('alzr-noniso', ctx.n(22, 70)), ('alzr-slow-ramp', ctx.n(22, 70)), ('alzr-noniso@rk4', ctx.n(12, 40)), ('alzr-noniso-nocheckT', ctx.n(22, 70))]
+
+
 def corr(ctx, oracle_only=False, scale=1.0):
     res = Result()
     res.rule = ('(a) random constructor/setter sequences for both TemperatureParameters classes (number, break points incl. single/duplicate/unsorted<=4/malformed, callable, 0 or 3 arguments) evaluated at 4-9 times incl. exactly on and outside break points; '
@@ -1828,8 +1832,8 @@ def corr(ctx, oracle_only=False, scale=1.0):
     corr_drun(ctx, res, oracle_only, scale)
     # the COMPOSED step (KWNFull.eulerStep, theorems eulerStep_fresh / runSteps_fresh): non-isothermal real runs replayed step by step
     # with the captured table rebuilds; lookup temperature, tables and the recorded temperature must be the implementation's
-    if not oracle_only:
-        kwnfull.refine_scenarios(ctx, res, PROP, [('alzr-noniso', ctx.n(22, 70)), ('alzr-slow-ramp', ctx.n(22, 70)), ('alzr-noniso@rk4', ctx.n(12, 40)), ('alzr-noniso-nocheckT', ctx.n(22, 70))], oracles=('lookup',))
+    # in the oracle-only pass (search, replay) the scenarios run with their direct oracles, without the model
+    kwnfull.refine_scenarios(ctx, res, PROP, _composed_plan(ctx), oracles=('lookup',), driver=not oracle_only)
     vlib.finish_guard(res)      # harness errors are re-raised only when the run found no violation
     return res
 
@@ -1844,6 +1848,8 @@ def replay(ctx, entry):
     if 'family' not in c and isinstance(c.get('case'), dict):
         c = c['case']                      # stored by vlib.guarded: {'case': …, 'raised_at': …}
     fam = c.get('family')
+    if fam is None and 'scenario' in c:
+        return kwnfull.replay_scenario(ctx, entry, PROP, _composed_plan(ctx), ('lookup',), Result)
     res = Result()
     ctx.driver_ok = False
     ok, _ = vlib.guarded(res, 'replay', c, _replay_case, ctx, res, c, fam)
